@@ -1,9 +1,35 @@
 (** C05 — line mode selects whole lines by index, whichever algorithm serves it.
-    Statements only.  Proved: both algorithms index the same list of lines, and a single
-    trailing EOL never counts as an extra empty line.  The walk over the bounds of the
-    one-line-at-a-time reader is the executable model, tied to the code by the run. *)
-From TucModel Require Import Base.Bytes Base.ListX Model.Bounds Model.BoundsParse Model.Scan Model.Opt
-     Model.CutBytes Model.CutStr Model.CutLines Spec.Fields Proofs.ScanSplit Proofs.C05.
+    Statements only.  Proved: the one-line-at-a-time reader prints exactly the selected lines
+    (the three-variable walk over the bounds, for every input and every ascending resolvable
+    list of plain bounds); both algorithms index the same list of lines; the whole-input
+    algorithm prints the same selection for the same request. *)
+From TucModel Require Import Base.Bytes Base.ListX Model.Bounds Model.BoundsParse Model.Scan Model.Utf8 Model.Opt
+     Model.CutBytes Model.CutStr Model.CutLines Spec.Fields Proofs.C06 Proofs.ScanSplit Proofs.C05 Proofs.Plain
+     Proofs.C03Full Proofs.C05Full.
+Local Open Scope Z_scope.
+
+(** the forward algorithm: for every list L of n >= 1 (valid) lines and every ascending list of
+    plain bounds resolvable on it (adjacent and repeated lines allowed), the output is the
+    selection of the statement - per bound its lines joined by the EOL, the EOL between bounds
+    iff join, one final EOL *)
+Theorem C05_forward_reader_prints_the_selection :
+  forall (o : opt) (L : list bytes) (bs : list bof),
+    L <> [] -> bs <> [] -> fwd_ok 1 (Z.of_nat (length L)) bs -> last_marked bs ->
+    (N.eqb (o_eol o) LF = true -> Forall (fun l => utf8_valid l = true) L) ->
+    exists x, spec_items L (o_fallback o) (o_join o) [o_eol o] bs = Some x
+              /\ fwd_lines o L bs false 0 [] = Done (x ++ [o_eol o]).
+Proof. exact C05_forward. Qed.
+
+(** the whole-input algorithm prints the same selection for the same request *)
+Theorem C05_buffered_reader_prints_the_same :
+  forall (o : opt) (input : bytes) (bs : list bof) (x : bytes),
+    plain_opts o (o_eol o) -> o_trim o = None -> o_only_delimited o = false -> o_replace o = None ->
+    items (o_bounds o) = bs -> Forall item_nz bs ->
+    utf8_valid input = true -> input <> [] -> strip_one_suffix (o_eol o) input <> [] ->
+    spec_items (records (o_eol o) input) (o_fallback o) (o_join o) [o_eol o] bs = Some x ->
+    cut_lines_buffered o input = Some (Done (x ++ [o_eol o])).
+Proof. exact C05_buffered_same. Qed.
+
 
 (** the lines the one-line-at-a-time reader delivers: the input split at every EOL, minus
     one trailing empty piece *)
@@ -33,6 +59,8 @@ Example C05_trailing_eol :
   /\ records 10%N [97; 10; 10]%N = [[97%N]; []].
 Proof. repeat split; reflexivity. Qed.
 
+Print Assumptions C05_forward_reader_prints_the_selection.
+Print Assumptions C05_buffered_reader_prints_the_same.
 Print Assumptions C05_lines_of_the_forward_reader.
 Print Assumptions C05_both_algorithms_see_the_same_lines.
 Print Assumptions C05_buffered_fields_are_lines.
